@@ -177,6 +177,40 @@ Section Main.
           simpl. fold e. rewrite Hh. left. reflexivity.
         - simpl. rewrite Hh. reflexivity.
       Qed.
+      (* conditional effects: a 'when' whose condition holds in the state BEFORE the action adds its atoms (whatever
+         the other effects do to the atoms the condition reads); likewise every instance of a 'forall-when', the
+         variable ranging over the objects of the type and of its subtypes *)
+      Lemma adds_of_ground : forall e p pargs ps, In (PAdd p pargs) ps ->
+        In (p, map (subst e) pargs) (adds_of (map (ground_prim e s) ps)).
+      Proof.
+        intros e p pargs ps Hin. unfold adds_of. apply in_flat_map. exists (ground_prim e s (PAdd p pargs)).
+        split; [apply in_map; exact Hin | simpl; left; reflexivity].
+      Qed.
+
+      Theorem when_adds : forall c ps p pargs,
+        In (EWhen c ps) effs -> In (PAdd p pargs) ps ->
+        let e := bind_args A args in
+        holds eps (d_types d) objs e s c = true ->
+        atom_in (p, map (subst e) pargs) (facts s') = true.
+      Proof.
+        intros c ps p pargs Hin Hp e Hh. apply add_wins. apply in_flat_map.
+        exists (map (ground_prim e s) ps). split; [|apply adds_of_ground; exact Hp].
+        unfold G, all_groups. apply in_flat_map. exists (EWhen c ps). split; [exact Hin|].
+        simpl. fold e. rewrite Hh. left. reflexivity.
+      Qed.
+
+      Theorem forall_when_adds : forall v ty c ps p pargs o,
+        In (EForall v ty c ps) effs -> In (PAdd p pargs) ps ->
+        In o (objects_of_type (d_types d) objs ty) ->
+        let e := (v, o) :: bind_args A args in
+        holds eps (d_types d) objs e s c = true ->
+        atom_in (p, map (subst e) pargs) (facts s') = true.
+      Proof.
+        intros v ty c ps p pargs o Hin Hp Hobj e Hh. apply add_wins. apply in_flat_map.
+        exists (map (ground_prim e s) ps). split; [|apply adds_of_ground; exact Hp].
+        unfold G, all_groups. apply in_flat_map. exists (EForall v ty c ps). split; [exact Hin|].
+        simpl. apply in_flat_map. exists o. split; [exact Hobj|]. fold e. rewrite Hh. left. reflexivity.
+      Qed.
     End Returned.
   End Refined.
 
